@@ -511,7 +511,7 @@ inline DResult decode(const unsigned char* data, size_t n) {
         p.topic = r.str();
         if (r.fail) return bad("topic");
         for (char c : p.topic) if (c == '#' || c == '+') return bad("wildcard in topic name");
-        if (p.qos() > 0) { p.has_pid = true; p.pid = r.u16(); if (r.fail || p.pid == 0) return bad("packet id"); }
+        if (p.qos() > 0) { p.has_pid = true; p.pid = r.u16(); if (r.fail || (p.pid == 0 && dec_opts().ranges)) return bad("packet id"); }   // id 0 is a value rule, not a framing rule
         else if (p.dup()) return bad("DUP with QoS 0");
         if (!dec_props(r, PUBLISH, p.props, why)) return bad("props");
         p.payload.assign((const char*)r.p + r.i, r.left()); r.i = r.n;
@@ -521,7 +521,8 @@ inline DResult decode(const unsigned char* data, size_t n) {
     }
     case PUBACK: case PUBREC: case PUBREL: case PUBCOMP: {
         p.has_pid = true; p.pid = r.u16();
-        if (r.fail || p.pid == 0) return bad("packet id");
+        // an acknowledgement echoes the identifier of the packet it answers: 0 is only refused for PUBREL (the sender's own id) in strict mode
+        if (r.fail || (p.pid == 0 && type == PUBREL && dec_opts().ranges)) return bad("packet id");
         p.has_rc = false; p.has_props = false;
         if (r.left() > 0) { p.has_rc = true; p.rc = r.u8(); if (!rc_listed(type, p.rc)) return bad("reason code"); }
         if (r.left() > 0) { p.has_props = true; if (!dec_props(r, type, p.props, why)) return bad("props"); }
